@@ -15,7 +15,7 @@
 (*    infix predicates (as operand of a connective, of a negation, or as   *)
 (*    quantifier body) may carry redundant parentheses.                    *)
 (* Token spelling per syntax (MATH / ASCII) is a table of the harness.     *)
-(* maxp = TRUE adds every admissible redundant pair of parentheses.        *)
+(* maxp = 1 adds every admissible redundant pair of parentheses.           *)
 (***************************************************************************)
 EXTENDS Integers, Sequences, TLC
 
@@ -39,6 +39,14 @@ Leaf(tok) == Rd(<<tok>>, <<[a |-> 1, b |-> 1]>>)
 \* parenthesise a rendering: the node's own span grows to include the parentheses
 Paren(r) == Rd(<<"(">> \o r.t \o <<")">>,
                <<[a |-> 1, b |-> Len(r.t) + 2]>> \o Shift(Tail(r.sp), 1))
+\* the parenthesisation mode maxp: 0 = only the necessary parentheses, 1 = every admissible redundant pair as well,
+\* 2 = as 1 with every pair around a binary set expression written twice: "((a \union b)) \intersect c".
+\* The grammar admits that for set expressions only (setexpr_binary : LP setexpr_binary RPE; a parenthesised formula is
+\* LP logic_binary RPE | LP logic_predicates RPE and cannot be parenthesised again), and the parser extends the node's
+\* range over ONE pair: the outer pair of a doubled one belongs to no node but the enclosing ones.
+Extra(m) == m > 0
+Paren2(r) == Rd(<<"(", "(">> \o r.t \o <<")", ")">>, <<[a |-> 2, b |-> Len(r.t) + 3]>> \o Shift(Tail(r.sp), 2))
+PP(r, m) == IF m = 2 THEN Paren2(r) ELSE Paren(r)
 \* glue parts (each a rendering or bare tokens) under a new node: node span covers everything
 Part(r) == [t |-> r.t, sp |-> r.sp]
 Bare(toks) == [t |-> toks, sp |-> <<>>]
@@ -56,20 +64,20 @@ RECURSIVE RenderSet(_, _)
 Commas(e, i, maxp) == IF i > Len(e.ch) THEN <<>>
                       ELSE (IF i > 1 THEN <<Bare(<<",">>)>> ELSE <<>>) \o <<Part(RenderSet(e.ch[i], maxp))>> \o Commas(e, i + 1, maxp)
 \* a setexpr in a neutral position (argument, element, domain ...): binary nodes may carry redundant parentheses
-RenderSet(e, maxp) == IF maxp /\ IsSetBinary(e) THEN Paren(Render(e, maxp)) ELSE Render(e, maxp)
+RenderSet(e, maxp) == IF Extra(maxp) /\ IsSetBinary(e) THEN PP(Render(e, maxp), maxp) ELSE Render(e, maxp)
 \* operand i of the binary setexpr node e
 SetOperand(e, i, maxp) ==
   LET c == e.ch[i]  r == Render(c, maxp)  p == BinPrec(e.id)
       need == IF ~IsSetBinary(c) THEN FALSE
               ELSE IF e.id = "DECART" /\ c.id = "DECART" THEN TRUE           \* keep a product operand nested
               ELSE IF i = 1 THEN BinPrec(c.id) < p ELSE BinPrec(c.id) <= p   \* left associativity
-  IN IF need \/ (maxp /\ IsSetBinary(c)) THEN Paren(r) ELSE r
+  IN IF need \/ (Extra(maxp) /\ IsSetBinary(c)) THEN PP(r, maxp) ELSE r
 \* operand of a connective / negation / quantifier body
 LogOperand(c, parentPrec, isRight, maxp) ==
   LET r == Render(c, maxp)
       need == IF IsLogBinary(c) THEN (parentPrec = 5 \/ (IF isRight THEN LogPrec(c.id) <= parentPrec ELSE LogPrec(c.id) < parentPrec))
               ELSE FALSE
-  IN IF need \/ (maxp /\ MayParenLogic(c)) THEN Paren(r) ELSE r
+  IN IF need \/ (Extra(maxp) /\ MayParenLogic(c)) THEN Paren(r) ELSE r
 RECURSIVE DeclR(_, _)
 DeclR(d, maxp) ==      \* declaration patterns: LOCAL | TUPLEDECL(..) | ENUMDECL(..)
   IF d.id = "LOCAL" THEN Leaf("$" \o d.s)
@@ -99,7 +107,7 @@ Render(e, maxp) ==
          Compose(<<Bare(<<e.id>>), Part(DeclR(e.ch[1], maxp)), Bare(<<"IN">>), S(2), Part(LogOperand(e.ch[3], 5, FALSE, maxp))>>)
     [] e.id = "DECLARATIVE" ->
          \* the short spelling {x in S | P} exists for a plain variable; it is used in the maxp rendering
-         Compose(<<Bare(IF maxp /\ e.ch[1].id = "LOCAL" THEN <<"{">> ELSE <<"DECLARATIVE", "{">>), Part(DeclR(e.ch[1], maxp)), Bare(<<"IN">>), S(2),
+         Compose(<<Bare(IF Extra(maxp) /\ e.ch[1].id = "LOCAL" THEN <<"{">> ELSE <<"DECLARATIVE", "{">>), Part(DeclR(e.ch[1], maxp)), Bare(<<"IN">>), S(2),
                 Bare(<<"|">>), L(3), Bare(<<"}">>)>>)
     [] e.id = "REC_SHORT" -> Compose(<<Bare(<<"RECURSIVE", "{">>), Part(DeclR(e.ch[1], maxp)), Bare(<<"ASSIGN">>), S(2), Bare(<<"|">>), S(3), Bare(<<"}">>)>>)
     [] e.id = "REC_FULL" -> Compose(<<Bare(<<"RECURSIVE", "{">>), Part(DeclR(e.ch[1], maxp)), Bare(<<"ASSIGN">>), S(2), Bare(<<"|">>), L(3),
